@@ -1314,8 +1314,11 @@ class ProcessPoolExecutor(Executor):
             finally:
                 # Also when spawning some of the workers failed: the ones
                 # already started need the executor manager thread to be
-                # watched and shut down.
-                self._start_executor_manager_thread()
+                # watched and shut down. (With no worker at all there is
+                # nothing to manage, and the thread would wait for ever for
+                # the jobs that cannot be run.)
+                if self._processes:
+                    self._start_executor_manager_thread()
 
     def submit(self, fn, *args, **kwargs):
         with self._flags.shutdown_lock:
